@@ -629,7 +629,8 @@ class Exec:
                         ctor = self.mod.names.get(ctor.split(".")[0], ctor.split(".")[0]) + ctor[len(ctor.split(".")[0]):]
                         p2.ghost.setdefault("opaque_globals", {})[v.sexpr()] = (e.id, ctor)
                         p2.ghost[key] = v
-                        p2.effects.append(("global-opaque-read", e.id, ctor, e.lineno))
+                        if ctor != "logging.getLogger":          # assumed contract A-log (pyvc/registry.py): a logger is not state the program reads
+                            p2.effects.append(("global-opaque-read", e.id, ctor, e.lineno))
                     elif not isinstance(v, Raise):
                         raise OutOfSubset("module-level call result %s (line %d)" % (e.id, e.lineno))
                     res.append((p2, v))
@@ -648,6 +649,8 @@ class Exec:
             return outs
         if e.id in BUILTINS:
             return [(p, QName("builtins." + e.id))]
+        if e.id in ("__name__", "__qualname__", "__file__", "__package__", "__doc__"):
+            return [(p, z3.StringVal("<%s of %s>" % (e.id, getattr(self.mod, "name", "module"))))]
         raise OutOfSubset("unresolved name %s line %d" % (e.id, e.lineno))
 
     def ex_Attribute(self, e, p):
@@ -933,8 +936,19 @@ class Exec:
             v2s = z3.Function("val2str", Val, S)
             return [(p, z3.Concat(a if a.sort() == S else v2s(a), b if b.sort() == S else v2s(b)))]
         if z3.is_expr(a) and a.sort() == S and isinstance(op, ast.Mod):
-            # "fmt" % value  -> uninterpreted text; total for %s of a str
-            return [(p, z3.Function("percent_format", S, Val, S)(a, to_val(b)))]
+            # "fmt" % value  -> uninterpreted text.  Total when the operand is a scalar of known type or a tuple display (the
+            # format's arity is then visible in the source); an operand of UNKNOWN type may be a tuple of the wrong length or a
+            # mapping, and `%` raises TypeError for those -- a path of its own
+            text = z3.Function("percent_format", S, Val, S)(a, to_val(b))
+            if z3.is_expr(b) and b.sort() == Val:
+                pr, pn = self.split(p, z3.Function("raises:percent_format", S, Val, B)(a, b))
+                res = []
+                if pr is not None:
+                    res.append((pr, Raise("TypeError", "%-formatting of a value of unknown type (a tuple or mapping operand changes its meaning)")))
+                if pn is not None:
+                    res.append((pn, text))
+                return res
+            return [(p, text)]
         if z3.is_expr(a) and z3.is_expr(b) and isinstance(op, (ast.Add, ast.Sub, ast.Mult, ast.Div)) and {str(a.sort()), str(b.sort())} in ({"Val", "Real"}, {"Val", "Int"}):
             v2r = z3.Function("val2real", Val, R)
             a = v2r(a) if a.sort() == Val else a
@@ -1134,7 +1148,7 @@ class Exec:
     # other unmodelled library call)
     PURE_BUILTINS = ("round", "sorted", "sum", "any", "all", "tuple", "set", "frozenset", "dict", "reversed", "enumerate", "zip", "map", "filter", "range",
                      "divmod", "pow", "repr", "bool", "ord", "chr", "format", "bytes", "bytearray", "complex", "bin", "hex", "oct", "ascii", "callable", "slice",
-                     "issubclass", "type")
+                     "issubclass", "type", "hasattr", "getattr", "hash")
     NONDETERMINISTIC_MODULES = ("random", "time", "os", "uuid", "secrets", "socket", "threading", "datetime", "locale", "sys", "platform", "tempfile", "getpass")
 
     def generic_external(self, q, pos, kw, p, node):
@@ -1154,7 +1168,7 @@ class Exec:
         cond = z3.Function("raises:" + q, *([Val] * len(args) + [B]))(*args) if args else z3.Const("raises:" + q, B)
         pr, pn = self.split(p, cond)
         if pr is not None:
-            res.append((pr, Raise("Exception", "%s raised" % q)))
+            res.append((pr, Raise("Exception", "no-contract: %s raised" % q)))
         if pn is not None:
             if root in self.NONDETERMINISTIC_MODULES:
                 pn.havoc.append((q + " (environment-dependent)", node.lineno))
@@ -1217,6 +1231,9 @@ class Exec:
             if h is None:
                 raise OutOfSubset("unmodelled method %s.%s (line %d)" % (kind, attr, node.lineno))
             return h(self, p, [base] + pos, kw, node)
+        if isinstance(f, PyObj):
+            # an instance used as a function: its class's __call__
+            return self.call(("boundmethod", f, "__call__"), pos, kw, p, node)
         if z3.is_expr(f) and f.sort() == Val:
             # opaque callable value (e.g. the compiled experiment function stored on the instance)
             h = self.reg.lookup("<opaque-call>")
@@ -1226,15 +1243,35 @@ class Exec:
 
 def _bind_params(fn, pos, kw):
     params = [a.arg for a in fn.args.posonlyargs + fn.args.args]
-    if fn.args.vararg or fn.args.kwarg or fn.args.kwonlyargs:
-        raise OutOfSubset("inlined helper with *args / **kwargs / keyword-only parameters")
+    if fn.args.vararg or fn.args.kwonlyargs:
+        raise OutOfSubset("inlined helper with *args / keyword-only parameters")
     env = {}
     for name, v in zip(params, pos):
         env[name] = v
+    if len(pos) > len(params):
+        raise OutOfSubset("too many positional arguments for inlined helper")
+    extra = {}
     for k, v in kw.items():
-        if k not in params or k in env:
+        if k == "**" and fn.args.kwarg is not None:
+            extra[k] = v
+        elif k in params and k not in env:
+            env[k] = v
+        elif fn.args.kwarg is not None and k not in params:
+            extra[k] = v
+        else:
             raise OutOfSubset("bad keyword %s for inlined helper" % k)
-        env[k] = v
+    if fn.args.kwarg is not None:
+        # **kwargs of the callee: the opaque mapping of the keywords no parameter takes (display order = sorted, as for calls)
+        if "**" in extra and len(extra) > 1:
+            raise OutOfSubset("**mapping mixed with further keywords for an inlined helper")
+        if "**" in extra:
+            term = extra["**"].term if isinstance(extra["**"], KwSplat) else to_val(extra["**"])
+        else:
+            term = z3.Const("emptydict", Val)
+            put = z3.Function("dict_with", Val, Val, Val, Val)
+            for k in sorted(extra):
+                term = put(term, STR2VAL(z3.StringVal(k)), to_val(extra[k]))
+        env[fn.args.kwarg.arg] = KwSplat(term)
     defaults = fn.args.defaults
     for name, d in zip(params[len(params) - len(defaults):], defaults):
         if name not in env:
